@@ -48,6 +48,32 @@ Fixpoint chk_policy_from (H : str -> str) (host : str) (m : mgr) (k : kernel)
 Definition chk_policy (tbl : list (str * str)) (host : str) (prior : kernel) (steps : list (pstep * kernel)) : bool :=
   match chk_policy_from (hash_of tbl) host mgr0 prior steps 0 with None => true | Some _ => false end.
 
+(** what the MODEL does at step [i] of the observed history (manager memory replayed from the observed kernels):
+    a failed exactness / idempotence monitor is explained by a recorded finding only if the model - which
+    the correspondence ties to the unchanged code - fails it at this very step as well *)
+Fixpoint mgr_at (H : str -> str) (host : str) (m : mgr) (k : kernel) (steps : list (pstep * kernel)) (i : nat)
+  : mgr * kernel :=
+  match i, steps with
+  | S i', (s, obs) :: r => let '(m', _, _) := model_step H host s (m, k) in mgr_at H host m' obs r i'
+  | _, _ => (m, k)
+  end.
+Definition model_exact_at (tbl : list (str * str)) (host : str) (prior : kernel) (steps : list (pstep * kernel))
+           (i : nat) (c : cluster) : bool :=
+  let H := hash_of tbl in
+  let '(m, k0) := mgr_at H host mgr0 prior steps i in
+  match nth_error steps i with
+  | Some (s, _) => let '(_, k', _) := model_step H host s (m, k0) in glx_exact H host c k' && foreign_same k0 k'
+  | None => true
+  end.
+Definition model_idem_at (tbl : list (str * str)) (host : str) (prior : kernel) (steps : list (pstep * kernel))
+           (i : nat) : bool :=
+  let H := hash_of tbl in
+  let '(m, k0) := mgr_at H host mgr0 prior steps i in
+  match nth_error steps i with
+  | Some (s, _) => let '(_, k', _) := model_step H host s (m, k0) in kernel_eqv k0 k'
+  | None => true
+  end.
+
 (** monitor of sync_exact on the implementation's kernels around one Run: 0 = holds (or outside the
     hypotheses), 1 = fails with the K5 shape, 2 = K5b shape, 3 = K5c shape, 5 = K5d (the cluster itself), 4 = fails inside the hypotheses *)
 Definition mon_exact_class (tbl : list (str * str)) (host : str) (c : cluster) (k0 k : kernel) : N :=
